@@ -10,7 +10,7 @@ from ..common import Result
 ID = "C04"
 LEVEL = "exploration"
 WORLDS = [(1, "plain")]
-BUDGET = {"quick": dict(cases=1500), "thorough": dict(cases=30000)}
+BUDGET = {"quick": dict(cases=3000), "thorough": dict(cases=90000)}
 MIN_NONTRIVIAL = {"quick": 2000, "thorough": 30000}
 BLOB = (200, 700)
 RULE = ("Hypothesis byte-backed generator: one command with 1-4 variables, the numeric target (INT/UINT/HEX x size 1,2,4 and the "
